@@ -1,6 +1,7 @@
 import WhVerif.Util.Proto
 import WhVerif.Spec.C01
 import WhVerif.Model.C01Gray
+import WhVerif.Model.C01Witness
 namespace WhVerif.Driver.C01
 open Lean WhVerif.Proto WhVerif.C01
 
